@@ -6,7 +6,7 @@ use vh_core::model::*;
 use vh_core::rng::Rng;
 use candid::de::IDLDeserialize;
 use candid::ser::IDLBuilder;
-use candid::{DecoderConfig, Int, Nat, Principal, Reserved};
+use candid::{Decode, DecoderConfig, Int, Nat, Principal, Reserved};
 use serde_bytes::ByteBuf;
 use std::collections::{BTreeMap, BTreeSet, BinaryHeap, HashMap, HashSet, LinkedList, VecDeque};
 use std::marker::PhantomData;
@@ -49,7 +49,21 @@ pub trait TypeOps {
     fn to_idl_value(&self, rng: &mut Rng, fuel: i64) -> (RValue, Result<candid::IDLValue, String>);
     /// decode one argument at this type (surplus arguments are skipped by `done`)
     fn decode(&self, bytes: &[u8], cfg: &DecoderConfig) -> DecOut;
+    /// the same decode through one of the other public entry points that take a configuration:
+    /// 1 decode_one_with_config, 2 decode_args_with_config, 3 decode_args_with_config_debug (reports the cost),
+    /// 4 Decode!([config]; ..), 5 Decode!(@Debug [config]; ..) (reports the cost). `cost` is the default configuration where the entry point does not report one.
+    fn decode_via(&self, api: u8, bytes: &[u8], cfg: &DecoderConfig) -> DecOut;
+    /// the const-generic quota wrappers (they unwrap, so a failure is a panic carrying the error):
+    /// 0 decode_one_with_decoding_quota::<CONST_DQ>, 1 decode_one_with_skipping_quota::<CONST_SQ>, 2 both,
+    /// 3..5 the decode_args_* forms. Ok(model) or Err(panic message).
+    fn decode_const_quota(&self, which: u8, bytes: &[u8]) -> Result<RValue, String>;
+    /// read the next argument of an existing deserializer at this type (sequences of reads on one deserializer,
+    /// including reads after an earlier read returned an error)
+    fn get_from(&self, de: &mut IDLDeserialize) -> Result<Result<RValue, String>, PanicInfo>;
 }
+/// quotas baked into the const-generic wrappers instantiated for the corpus
+pub const CONST_DQ: usize = 3000;
+pub const CONST_SQ: usize = 400;
 
 pub struct Ops<T>(pub PhantomData<T>);
 
@@ -214,9 +228,50 @@ impl<T: Corpus> TypeOps for Ops<T> {
             }
         }
     }
+    fn decode_via(&self, api: u8, bytes: &[u8], cfg: &DecoderConfig) -> DecOut {
+        let r = catch(|| -> Result<(T, DecoderConfig), String> {
+            match api {
+                1 => candid::utils::decode_one_with_config::<T>(bytes, cfg).map(|w| (w, DecoderConfig::new())).map_err(|e| format!("{e:?}")),
+                2 => candid::utils::decode_args_with_config::<(T,)>(bytes, cfg).map(|w| (w.0, DecoderConfig::new())).map_err(|e| format!("{e:?}")),
+                3 => candid::utils::decode_args_with_config_debug::<(T,)>(bytes, cfg).map(|(w, c)| (w.0, c)).map_err(|e| format!("{e:?}")),
+                4 => Decode!([cfg.clone()]; bytes, T).map(|w| (w, DecoderConfig::new())).map_err(|e| format!("{e:?}")),
+                _ => Decode!(@Debug [cfg.clone()]; bytes, T).map_err(|e| format!("{e:?}")),
+            }
+        });
+        match r {
+            Err(p) => DecOut::Panic(p),
+            Ok(Err(e)) => DecOut::Err(e),
+            Ok(Ok((w, cost))) => DecOut::Ok {
+                model: w.model(),
+                reencoded: Err("not computed".into()),
+                cost,
+            },
+        }
+    }
+    fn get_from(&self, de: &mut IDLDeserialize) -> Result<Result<RValue, String>, PanicInfo> {
+        catch(|| de.get_value::<T>().map(|w| w.model()).map_err(|e| format!("{e:?}")))
+    }
+    fn decode_const_quota(&self, which: u8, bytes: &[u8]) -> Result<RValue, String> {
+        let b = bytes.to_vec();
+        let r = catch(|| -> T {
+            match which {
+                0 => candid::utils::decode_one_with_decoding_quota::<CONST_DQ, T>(b),
+                1 => candid::utils::decode_one_with_skipping_quota::<CONST_SQ, T>(b),
+                2 => candid::utils::decode_one_with_decoding_and_skipping_quota::<CONST_DQ, CONST_SQ, T>(b),
+                3 => candid::utils::decode_args_with_decoding_quota::<CONST_DQ, (T,)>(b).0,
+                4 => candid::utils::decode_args_with_skipping_quota::<CONST_SQ, (T,)>(b).0,
+                _ => candid::utils::decode_args_with_decoding_and_skipping_quota::<CONST_DQ, CONST_SQ, (T,)>(b).0,
+            }
+        });
+        match r {
+            Ok(w) => Ok(w.model()),
+            Err(p) => Err(format!("{}|{}", p.location, p.message)),
+        }
+    }
 }
 
 pub type Entry = Box<dyn TypeOps>;
+
 
 macro_rules! reg {
     ($v:ident; $($t:ty),* $(,)?) => { $( $v.push(Box::new(Ops::<$t>(PhantomData)) as Entry); )* };
